@@ -121,6 +121,23 @@ def checkCase (j : Json) : Except String Verdict := do
       if g "groups" == [] && g "domains" == [] && g "addrs" == [] then v := v.mon "C14" "never_open_by_omission" i
       if jstrD u "routeKind" == "" then v := v.mon "C14" "no_valid_route" i
       i := i + 1
+    -- provenance: a restriction list of a resolved upstream is, wholesale, one that this service's own blocks (selected
+    -- cluster block, default block, their extra routes) state, or the deployment default — never another service's
+    for u in iups do
+      let name := jstrD u "service"
+      let mine := services.filter fun s => name.startsWith (cleanWhiteSpace s.name)
+      let optsOf (b : Option (Option Block)) : List Opts := match b with
+        | some (some b) => (b.route :: b.extraRoutes).filterMap (·.options)
+        | _ => []
+      let own : List Opts := defaults :: mine.flatMap fun s => optsOf (lookupBlock s "default") ++ optsOf (lookupBlock s cluster)
+      let chk (nm key : String) (sel : Opts → List String) (v : Verdict) : Verdict :=
+        let got := strList u key
+        if got != [] && !(own.any fun o => sel o == got) then v.mon "C14" "setting_from_own_blocks_only" 0 s!"{name}: {nm} = {got} is stated by none of its blocks nor the deployment default"
+        else v
+      v := chk "allowed_groups" "groups" (·.groups) v
+      v := chk "allowed_email_domains" "domains" (·.domains) v
+      v := chk "allowed_email_addresses" "addrs" (·.addrs) v
+      v := chk "skip_auth_regex" "skip" (·.skipAuthRegex) v
     -- field-by-field inheritance: restrictions stated in the default block stay in force unless the cluster block restates that list
     let mut ti := 0      -- index of this service's top-level upstream in the loader's output (tops come first, in document order)
     for s in services do
